@@ -87,6 +87,17 @@ def keyFileOp (line : String) : Option String :=
   | ["bighex", h] => (unhx h).map fun b => numStr (parseBigHex b)
   | ["importkeys", h] => (unhx h).map fun b =>
       runStr (fun (o : Option (List Account)) => optStr (o.map accountsStr)) (importKeys b)
+  | ["reimport", h] => (unhx h).map fun b =>
+      match importKeys b with
+      | .outOfFuel => "OUT-OF-FUEL"
+      | .done none => "none"
+      | .done (some as) =>
+        if as.any (fun a => a.key.p.isNone || a.key.q.isNone || a.key.g.isNone || a.key.y.isNone || a.key.x.isNone)
+        then "incomplete" else
+        match importKeys (exportKeys as) with
+        | .outOfFuel => "OUT-OF-FUEL"
+        | .done none => "rejected"
+        | .done (some bs) => if bs == as then "same" else "differs"
   | ["importkeyserr", h, n] => (unhx h).bind fun b => n.toNat?.map fun k =>
       -- a reader that fails for good after k bytes: the import ends as at the end of input there
       runStr (fun (o : Option (List Account)) => optStr (o.map accountsStr)) (importKeys (b.take k))
